@@ -188,7 +188,8 @@ fn cmd_slice(args: &[&str], out: &mut Vec<String>) {
 }
 
 fn run_sei<R: BufRead + Clone>(r: R, extra: usize, out: &mut Vec<String>) {
-    let mut scratch = Vec::new();
+    // a used scratch buffer: the reader must not depend on its previous contents
+    let mut scratch = vec![0xEEu8; 37];
     let mut rd = SeiReader::from_rbsp_bytes(r, &mut scratch);
     let mut after_end = 0usize;
     let mut guard_n = 0usize;
